@@ -205,11 +205,18 @@ inductive Route where
 /-- `parser.StmtDDL`, `parser.StmtLoad` (rejected for read-only users since the C21 repair of
     `isSQLNotAllowedByUser`). -/
 def stmtDDL : Nat := 6
-def stmtLoad : Nat := 31
+def stmtLoad : Nat := 32
+
+/-- Kinds whose fate for a read-only user is decided by C21's check of the *text*:
+    `parser.StmtCallProc`, `StmtPrepare`, `StmtExecute` are refused outright, `StmtWith`
+    and `StmtComment` (`/*!NNNNN … */`) are followed to the statement they lead to
+    (`PreviewMainStatement`, modelled in `Model/PreviewC21.lean`). For read-only users
+    they are outside this model, like the data-changing kinds. -/
+def roTextDecided : List Nat := [24, 28, 29, 33, 15]
 
 def isWriteKind (stmtType : Nat) : Bool :=
   stmtType == stmtInsert || stmtType == stmtUpdate || stmtType == stmtDelete || stmtType == stmtReplace ||
-  stmtType == stmtDDL || stmtType == stmtLoad
+  stmtType == stmtDDL || stmtType == stmtLoad || roTextDecided.contains stmtType
 
 def kwDatabases : Str := "databases".toList
 
